@@ -64,6 +64,7 @@ class Engine:
         self.impls = {}
         srccache = {}
         for name, f in self.fns.items():
+            name = name.replace('#dup', '')
             m = re.search(r'<impl at (src/[^:]+):(\d+):(\d+): (\d+):(\d+)>::(.*)$', name)
             if m:
                 path, line, meth = m.group(1), int(m.group(2)), m.group(6)
@@ -75,6 +76,13 @@ class Engine:
                 while '{' not in hdr and k < len(srccache[path]):
                     hdr += ' ' + srccache[path][k].strip(); k += 1
                 mm = re.match(r'\s*(?:unsafe )?impl(?:<[^>]*>)?\s+(?:(.*?)\s+for\s+)?(.*?)\s*(?:where.*)?\{', hdr)
+                mv = re.match(r'\s*type_to_(?:box_)?value!\(\s*([^,]+),\s*(\w+)', hdr)
+                if mv:
+                    t = base(mv.group(1))
+                    if meth == 'from': self.impls[('Value', 'From<%s>' % t, 'from')] = f
+                    elif meth == 'null': self.impls[(t, 'Nullable', 'null')] = f
+                    else: self.impls[(t, 'ValueType', meth)] = f
+                    continue
                 if not mm:
                     # derive-generated impl: the span is the trait name inside #[derive(..)]
                     if l1 != line: continue
@@ -88,9 +96,16 @@ class Engine:
                     continue
                 trait = mm.group(1); ty = mm.group(2)
                 tb = base(trait) if trait else None
+                if trait and is_forwarder(f, meth, base(ty)):
+                    self.impls[(base(ty), None, meth)] = f      # #[inherent] forwarder
+                    continue
                 self.impls[(base(ty), tb, meth)] = f
                 if trait and '<' in trait:
-                    self.impls[(base(ty), tkey(trait), meth)] = f
+                    tk = tkey(trait)
+                    if '$' in tk and f.params:
+                        pt = f.params[0].split(': ', 1)[1]
+                        tk = re.sub(r'\$\w+', base(pt), tk)
+                    self.impls[(base(ty), tk, meth)] = f
             else:
                 self.byname[name] = f
                 # trait default methods:  backend::EscapeBuilder::escape_string
@@ -172,8 +187,9 @@ class Engine:
         return self.exec_fn(f, args)
 
     def resolve(self, callee, args):
+        self.cur_callee = callee
         m0 = re.match(r'<(.*) as (.*?)>::(\w+)$', strip_generics(callee))
-        if m0:
+        if m0 and not m0.group(1).startswith('&'):
             k0 = (base(m0.group(1)), base(m0.group(2)), m0.group(3))
             if k0 in self.impls: return self.impls[k0]
         for pat, fn in MODELS:
@@ -190,6 +206,7 @@ class Engine:
                 tgt = base(re.match(r'<.* as Into<(.*)>>::into$', c).group(1))
                 src = self.runtime_type(args[0]) if isinstance(args[0], (Adt, Ref)) else PRIM.get(base(ty), base(ty))
                 if src == tgt: return lambda e, c_, a: a[0]
+                if src == 'str' and tgt == 'String': return m_str_into_string
                 key = (tgt, 'From<%s>' % src, 'from')
                 if key in self.impls: return self.impls[key]
                 gen = [k for k in self.impls if k[0] == tgt and k[2] == 'from' and k[1] and re.match(r'^From<[A-Z]>$', k[1])]
@@ -212,9 +229,22 @@ class Engine:
     def runtime_type(self, v):
         while isinstance(v, Ref): v = v.cell.v
         if isinstance(v, Adt): return base(v.ty)
-        raise Unsupported('runtime type of ' + repr(v))
+        if isinstance(v, Str): return 'str'
+        if isinstance(v, VecV): return 'Vec'
+        if isinstance(v, Iter): return 'Iter'
+        raise Unsupported('runtime type of ' + repr(v) + ' in ' + getattr(self,'cur_callee','?'))
 
     def exec_fn(self, f, args):
+        self.depth = getattr(self, 'depth', 0) + 1
+        if self.depth > 60:
+            self.depth = 0
+            raise Unsupported('call depth: ' + f.name)
+        try:
+            return self.exec_fn2(f, args)
+        finally:
+            self.depth -= 1
+
+    def exec_fn2(self, f, args):
         loc = {}
         for i, a in enumerate(args): loc[i+1] = Cell(a)
         bb = 0
@@ -222,7 +252,12 @@ class Engine:
             stmts, term = f.blocks[bb]
             for s in stmts:
                 self.stats['steps'] += 1
-                self.exec_stmt(f, loc, s)
+                try:
+                    self.exec_stmt(f, loc, s)
+                except Unsupported as ex:
+                    if not getattr(ex, 'tagged', False):
+                        ex.tagged = True; ex.args = (ex.args[0] + ' @ ' + f.name + ' :: ' + s,)
+                    raise
             self.stats['steps'] += 1
             # terminator
             if term == 'return':
@@ -513,6 +548,11 @@ BINOPS = {'Eq', 'Ne', 'Lt', 'Le', 'Gt', 'Ge', 'Add', 'Sub', 'Mul', 'Div', 'Rem',
 UNOPS = {'Not', 'Neg'}
 INTW = {'u8': 8, 'i8': 8, 'u16': 16, 'i16': 16, 'u32': 32, 'i32': 32, 'u64': 64, 'i64': 64, 'usize': 64, 'isize': 64, 'char': 32, 'u128': 128, 'i128': 128}
 
+def is_forwarder(f, meth, tyb):
+    if len(f.blocks) > 3: return False
+    stmts, term = f.blocks[0]
+    m = re.search(r'= <(.*?) as .*>::%s(::<.*>)?\(' % re.escape(meth), term)
+    return bool(m) and base(m.group(1)) in (tyb, 'Self')
 def balanced(s):
     d = 0
     for c in s:
@@ -601,7 +641,8 @@ def m_unwrap(e, c, a):
     v = a[0]
     if isinstance(v, Adt) and v.variant in ('Ok', 'Some'): return v.fields[0].v
     raise Panic('unwrap on ' + repr(v))
-def m_new_display(e, c, a): return FmtArg('display', a[0])
+def m_new_display(e, c, a):
+    fa = FmtArg('display', a[0]); fa.ty = re.search(r'new_display::<(.*)>$', c).group(1); return fa
 def m_args_new(e, c, a): return FmtArgs(as_str(a[0]).chars, [x.v for x in a[1].cell.v.items])
 def m_args_from_str(e, c, a): return FmtArgs(None, [as_str(a[0])])
 def fmt_value(v):
@@ -621,7 +662,14 @@ def render_args(fa):
         elif b == 0x80:
             n = t[i+1] | (t[i+2] << 8); out.extend(t[i+3:i+3+n]); i += 3 + n
         elif b == 0xc0:
-            out.extend(fmt_value(fa.args[argi].ref)); argi += 1; i += 1
+            arg = fa.args[argi]
+            if base(getattr(arg, 'ty', '')) in INTW and base(arg.ty) != 'char':
+                v = arg.ref
+                while isinstance(v, Ref): v = v.cell.v
+                out.extend([ord(ch) for ch in str(v)] if isinstance(v, int) else [('Dec', v)])
+            else:
+                out.extend(fmt_value(arg.ref))
+            argi += 1; i += 1
         else:
             raise Unsupported('fmt template opcode %#x' % b)
     return out
@@ -694,10 +742,19 @@ def m_dyn_write_fmt(e, c, a):
     w = pywriter(a[0])
     if w is not None:
         w.chars.extend(render_args(a[1])); return Adt('Result', 'Ok', [Cell(UNIT)])
+    v = a[0]
+    while isinstance(v, Ref): v = v.cell.v
+    if isinstance(v, Adt) and v.ty != 'String':
+        key = (base(v.ty), 'Write', 'write_str')
+        if key in e.impls:
+            return e.exec_fn(e.impls[key], [a[0], Ref(Cell(Str(render_args(a[1]))))])
     return m_write_fmt(e, c, a)
 def m_as_writer(e, c, a): return a[0]
 def m_push_param(e, c, a):
-    w = pywriter(a[0]); w.chars.append(('PARAM', len(w.params))); w.params.append(a[1]); return UNIT
+    w = pywriter(a[0])
+    if w is None:
+        return e.exec_fn(e.impls[(e.runtime_type(a[0]), 'SqlWriter', 'push_param')], a)
+    w.chars.append(('PARAM', len(w.params))); w.params.append(a[1]); return UNIT
 def m_ident(e, c, a): return a[0]
 def m_deref_generic(e, c, a):
     v = a[0]
@@ -783,8 +840,19 @@ def clo_body(e, clo):
 def m_enumerate(e, c, a):
     it = a[0]
     return Iter([Adt('tuple', 0, [Cell(i), Cell(x)]) for i, x in enumerate(it.seq[it.pos:])])
+def m_mem_take(e, c, a):
+    t = re.match(r'std::mem::take::<(.*)>$', c).group(1)
+    cell = a[0].cell; old = cell.v
+    cell.v = e.call('<%s as Default>::default' % t, [])
+    return old
+def m_mem_replace(e, c, a):
+    cell = a[0].cell; old = cell.v; cell.v = a[1]; return old
+def m_ref_vec_into_iter(e, c, a): return Iter([Ref(x) for x in vec_of(a[0]).items])
+def m_vec_into_iter(e, c, a): return Iter([x.v for x in vec_of(a[0]).items])
 def m_str_into_string(e, c, a): return new_string(as_str(a[0]).chars)
 MODELS = [(re.compile(p), f) for p, f in [
+    (r'std::mem::take::<.*>$', m_mem_take),
+    (r'std::mem::replace::<.*>$', m_mem_replace),
     (r'<.* as Default>::default$', m_default),
     (r'Vec::<.*>::push$', m_vec_push),
     (r'Vec::<.*>::new$', m_vec_new),
@@ -795,6 +863,10 @@ MODELS = [(re.compile(p), f) for p, f in [
     (r'<std::slice::Iter<.*> as Iterator>::fold::<.*>$', m_fold),
     (r'<std::slice::Iter<.*> as Iterator>::for_each::<.*>$', m_for_each),
     (r'<std::slice::Iter<.*> as IntoIterator>::into_iter$', m_into_iter),
+    (r'<&Vec<.*> as IntoIterator>::into_iter$', m_ref_vec_into_iter),
+    (r'<Vec<.*> as IntoIterator>::into_iter$', m_vec_into_iter),
+    (r'<std::vec::IntoIter<.*> as Iterator>::next$', m_iter_next),
+    (r'<std::vec::IntoIter<.*> as IntoIterator>::into_iter$', m_into_iter),
     (r'<std::slice::Iter<.*> as Iterator>::enumerate$', m_enumerate),
     (r'<Enumerate<.*> as IntoIterator>::into_iter$', m_into_iter),
     (r'<Enumerate<.*> as Iterator>::next$', m_iter_next),
@@ -812,7 +884,8 @@ MODELS = [(re.compile(p), f) for p, f in [
     (r'core::str::<impl str>::repeat$|std::str::<impl str>::repeat$', m_repeat),
     (r'std::string::String::as_str$', m_as_str),
     (r'<char as From<u8>>::from$', m_char_from_u8),
-    (r'std::string::String::new$', m_string_new),
+    (r'std::string::String::(new|with_capacity)$', m_string_new),
+    (r'Vec::<.*>::with_capacity$', m_vec_new),
     (r'std::result::Result::<.*>::unwrap$', m_unwrap),
     (r'(std::option::)?Option::<.*>::unwrap$', m_unwrap),
     (r'core::fmt::rt::Argument::<.*>::new_display::<.*>$', m_new_display),
